@@ -85,7 +85,7 @@ Proof. exact PendingProofs.outcome_cases. Qed.
 
 (* trace validation: every connection of a trace accepted by [maccepts] (what the harness asks on every run) is a good run
    of the pending-table machine from [init] — the theorems above apply to what was observed *)
-Theorem C08_accepted_trace_components : forall n ls obs snaps lft, maccepts (n, ls, obs, snaps, lft) = true ->
+Theorem C08_accepted_trace_components : forall n ls obs snaps lft pu, maccepts (n, ls, obs, snaps, lft, pu) = true ->
   exists ms, mrun (repeat Pending.init n) ls = Some ms /\
     forall a s', nth_error ms a = Some s' -> exists pls, Pending.run Pending.init pls = Some s' /\ good_run Pending.init pls = true.
 Proof. exact PendingProofs.maccepts_components. Qed.
